@@ -629,7 +629,7 @@ def text_wide_years(ctx, Time, drv):
         for (m, d) in rng.sample(cands, 3):
             us = rng.choice([0, 1, DAY_US - 1, 43200 * 10**6, 999999, 1000000, 86399 * 10**6, rng.randint(0, DAY_US - 1), rng.randint(0, DAY_US - 1)])
             if y == 9999 and (m, d) == (12, 31):
-                us = min(us, DAY_US - 10)  # stay inside datetime's range after rounding
+                us = min(us, DAY_US - 10**6)  # stay inside datetime's range: within 40 us of 10000-01-01 the two-part jd is stored on the next day
             eps.append((y, (datetime(y, m, d) - DT2000).days, us))
     scale = "utc"
     v1 = np.array([float(F(4903089, 2) + d) for _, d, _ in eps])
